@@ -197,7 +197,7 @@ ADDENDA = {
     "C16": "ensure/flip/ensure histories, PIL-backed images, exactly-zero matrix entries, a WCS instance shared by two images. Latitude-first world axes; one WCS instance shared by objects of three different heights, each flipped. A WCS object carrying the array size of another file; pixel scales of 0.1 mas and 7 micro-arcseconds; sky positions compared to a thousandth of a pixel. Triangular matrices with exact zeros in CD and CDELT+PC form; non-default LONPOLE / LATPOLE.",
     "C17": "Pipeline with the LXY scheme and a single-tile image; a faulted first call followed by reuse of the directory. Override after a deeper pyramid of a changed input (TAN and TOAST). tile_fits with every default (output directory derived from the input name, method detected); the Builder study route into pyramids whose format differs from the image's own. tile_fits with two worker processes (fresh and reused). The tile-wwtl workflow with JPEG and PNG layers. Histories that re-tile the directory from ANOTHER input with override=True and then reuse it (alphabet fresh / reuse / override / override-other; single-input TAN histories four calls deep in the quick tier, the search split over processes by the second call).",
     "C18": "Recovery on the same manager object as well as a fresh one; OSError raised inside the store's own copy. Two fault families: process death (not catchable) and transfer errors (OSError the code may catch), judged by the state left behind. Process death inside the store's own copy, followed by a re-run. A zero-length file in the file set.",
-    "C19": "A foreign idle child process of the caller while a walk worker fails or is killed (multiprocessing.active_children virtualised); a six-image multi-TAN run failing on the first image (more images than queue and workers absorb); read faults inside the cascade. Messages switched off for the process as a circumstance of every stage. One failing item per stage explored a second time in a child interpreter started with -O; a 16-leaf visit whose dispatcher finds the queue full after a worker died. Five inputs with a persistent failure (multi-WCS); a depth-3 transform with two workers failing on an early tile. Every item failing with more items than the bounded work queue holds, and with a pipe that holds one item; an error object that cannot be pickled. An input image that cannot be LOADED: the collection raises in the dispatching process between two hand-offs while workers are alive (multi-TAN and multi-WCS, every position of the bad input).",
+    "C19": "A foreign idle child process of the caller while a walk worker fails or is killed (multiprocessing.active_children virtualised); a six-image multi-TAN run failing on the first image (more images than queue and workers absorb); read faults inside the cascade. Messages switched off for the process as a circumstance of every stage. One failing item per stage explored a second time in a child interpreter started with -O; a 16-leaf visit whose dispatcher finds the queue full after a worker died. Five inputs with a persistent failure (multi-WCS); a depth-3 transform with two workers failing on an early tile. Every item failing with more items than the bounded work queue holds, and with a pipe that holds one item; an error object that cannot be pickled. An input image that cannot be LOADED: the collection raises in the dispatching process between two hand-offs while workers are alive (multi-TAN and multi-WCS, every position of the bad input). A one-worker visit of 256 leaves that all fail (a child's sys.exit(n) is seen as n & 0xFF).",
     "C20": "The `toasty view --tile-only` and `toasty tile-multi-tan` commands; file names whose sort order is the reverse of the input order; cubes and repeated paths. Two-digit HDU indices in per-file lists; a 2-D HDU whose alternate WCS declares a virtual third axis. The same collection inspected again after its descriptions and images were flipped by a consumer. End-relative scalar indices over files of different lengths; index 0 on files whose primary HDU is empty (must be refused, not replaced by another HDU).",
 }
 
